@@ -25,6 +25,7 @@ EXPLANATION = (
     "the iteration counter advances only under 'polled and not finished'; the max_iter test is iter >= max_iter - 1. R6 each termination "
     "message literal is assigned only under the test naming its option with the tabled direction, in a branch that sets the exit flag; the "
     "result's message reads the key written last in the loop. Liveness as a whole is not decided."
+    " R4 also requires that no call which can still raise the detected noise level is reachable after the reserve has been decided."
 )
 
 
